@@ -300,6 +300,12 @@ pub enum KeySource {
     Dealer,
     Split,
     Dkg,
+    /// dealer keys, then one trusted-dealer refresh of all participants (multi-step key history)
+    DealerRefreshed,
+    /// DKG keys, then one distributed refresh of all participants
+    DkgRefreshed,
+    /// dealer keys where one participant's key package was lost and repaired by t helpers
+    Repaired,
 }
 impl KeySource {
     pub fn name(self) -> &'static str {
@@ -307,7 +313,13 @@ impl KeySource {
             KeySource::Dealer => "dealer",
             KeySource::Split => "split",
             KeySource::Dkg => "dkg",
+            KeySource::DealerRefreshed => "dealer+refresh",
+            KeySource::DkgRefreshed => "dkg+refresh",
+            KeySource::Repaired => "dealer+repair",
         }
+    }
+    pub fn uses_dkg(self) -> bool {
+        matches!(self, KeySource::Dkg | KeySource::DkgRefreshed)
     }
 }
 
@@ -463,8 +475,97 @@ pub fn dkg_keys<C: Suite>(shape: Shape, ids: IdSpec, seed: u64, key: &str) -> Re
 pub fn make_keys<C: Suite>(shape: Shape, ids: IdSpec, source: KeySource, seed: u64, key: &str) -> Result<Keys<C>, Failure> {
     match source {
         KeySource::Dkg => dkg_keys::<C>(shape, ids, seed, key),
+        KeySource::DealerRefreshed => {
+            let mut k = dealer_keys::<C>(shape, ids, KeySource::Dealer, seed, key)?;
+            refresh_all::<C>(&mut k, false, seed ^ 0x4ef4, key)?;
+            k.source = source;
+            Ok(k)
+        }
+        KeySource::DkgRefreshed => {
+            let mut k = dkg_keys::<C>(shape, ids, seed, key)?;
+            refresh_all::<C>(&mut k, true, seed ^ 0x4ef5, key)?;
+            k.source = source;
+            Ok(k)
+        }
+        KeySource::Repaired => {
+            let mut k = dealer_keys::<C>(shape, ids, KeySource::Dealer, seed, key)?;
+            repair_one::<C>(&mut k, seed ^ 0x4e9a, key)?;
+            k.source = source;
+            Ok(k)
+        }
         s => dealer_keys::<C>(shape, ids, s, seed, key),
     }
+}
+
+/// one honest refresh of ALL participants (nobody removed); replaces key packages and public key package
+pub fn refresh_all<C: Suite>(k: &mut Keys<C>, dkg_refresh: bool, seed: u64, key: &str) -> Result<(), Failure> {
+    use frost_core::keys::refresh;
+    let t = k.shape.t;
+    // the caller passes the identifiers in non-ascending order
+    let mut order: Vec<Id<C>> = k.ids.clone();
+    order.reverse();
+    let mut new_kps = BTreeMap::new();
+    if dkg_refresh {
+        let run = crate::props::c10::dkg_refresh_rounds::<C>(&order, t, seed, key)?;
+        let mut pk_new = None;
+        for id in &order {
+            let (r1, r2) = crate::props::c10::dkg_refresh_inputs(&run, id);
+            match refresh::refresh_dkg_shares(&run.r2_secret[id], &r1, &r2, k.pubkeys.clone(), k.kps[id].clone()) {
+                Ok((kp, pk)) => {
+                    new_kps.insert(*id, kp);
+                    pk_new = Some(pk);
+                }
+                Err(e) => return fail(&format!("{key}/refresh"), format!("honest distributed refresh failed: {e:?}")),
+            }
+        }
+        k.pubkeys = pk_new.expect("at least two participants");
+    } else {
+        let (shares, pk) = refresh::compute_refreshing_shares::<C, _>(k.pubkeys.clone(), &order, &mut Tape::random(seed))
+            .map_err(|e| Failure { key: format!("{key}/refresh"), msg: format!("honest dealer refresh failed: {e:?}") })?;
+        for id in &order {
+            let sh = shares.iter().find(|s| s.identifier() == id).ok_or_else(|| Failure { key: format!("{key}/refresh"), msg: "no refreshing share for a participant".into() })?;
+            match refresh::refresh_share(sh.clone(), &k.kps[id]) {
+                Ok(kp) => {
+                    new_kps.insert(*id, kp);
+                }
+                Err(e) => return fail(&format!("{key}/refresh"), format!("honest refresh_share failed: {e:?}")),
+            }
+        }
+        k.pubkeys = pk;
+    }
+    k.kps = new_kps;
+    k.secret_shares = None;
+    k.signing_key = None;
+    k.dkg = None;
+    Ok(())
+}
+
+/// the participant with the highest identifier loses its key package and repairs it with the t lowest helpers
+pub fn repair_one<C: Suite>(k: &mut Keys<C>, seed: u64, key: &str) -> Result<(), Failure> {
+    use frost_core::keys::repairable::{repair_share_part1, repair_share_part2, repair_share_part3, Delta, Sigma};
+    let t = k.shape.t as usize;
+    if k.ids.len() <= t {
+        return Ok(()); // no room for t helpers next to the repaired participant: plain dealer keys
+    }
+    let target = *k.ids.last().unwrap();
+    let mut helpers: Vec<Id<C>> = k.ids[..t].to_vec();
+    helpers.reverse();
+    let mut deltas: BTreeMap<Id<C>, BTreeMap<Id<C>, Delta<C>>> = BTreeMap::new();
+    for (j, h) in helpers.iter().enumerate() {
+        let d = repair_share_part1::<C, _>(&helpers, &k.kps[h], &mut Tape::random(seed ^ (j as u64 + 1)), target)
+            .map_err(|e| Failure { key: format!("{key}/repair"), msg: format!("honest repair part1 failed: {e:?}") })?;
+        deltas.insert(*h, d);
+    }
+    let mut sigmas: Vec<Sigma<C>> = Vec::new();
+    for j in &helpers {
+        let recv: Vec<Delta<C>> = helpers.iter().filter_map(|i| deltas[i].get(j).copied()).collect();
+        sigmas.push(repair_share_part2::<C>(&recv));
+    }
+    let kp = repair_share_part3::<C>(&sigmas, target, &k.pubkeys).map_err(|e| Failure { key: format!("{key}/repair"), msg: format!("honest repair part3 failed: {e:?}") })?;
+    k.kps.insert(target, kp);
+    k.secret_shares = None;
+    k.signing_key = None;
+    Ok(())
 }
 
 // ---------------------------------------------------------------------------------------------
